@@ -24,6 +24,7 @@ EXPLANATION = (
     "TlvForwarder::next_if_smaller puts a TLV that does not fit back into `peek` (no loss), and returns it only "
     "under size <= max_size. TLV-8: forwarded PATH_TRACE TLVs are skipped when the instance appends its own."
     ' TLV-10: a TLV taken from the provider is appended without a further strict size test (no loss at exact fit). TLV-11: decision M1/M2 clears pathTraceDS.list unconditionally.'
+    ' TLV-12 (= C10 TX-12): ForwardedTLV::size() is the wire size. TLV-13: the forwarder tells a Lagged receive error from Empty/Closed and retries.'
 )
 NOT_DECIDED = ("arrival-order / at-most-once delivery across ports (queue semantics of the broadcast channel), "
                "head-of-line blocking by an oversized TLV (F20, observed, outside the rules)")
